@@ -133,6 +133,7 @@ func runC18(c *Ctx) {
 	ruleIsNilMeansNull(c, "R18.i")
 	// what the store is given is what the client sent: parsed payloads are owned copies
 	ruleOwnedBytes(c, "R18.j")
+	ruleNoWriteThroughView(c, "R18.l")
 	ruleRecycledObjectsReset(c, "R18.p")
 	ruleReplyShapeFromRequest(c, "R18.k")
 
